@@ -5,30 +5,60 @@ ENTRY = {'coq_dir': 'C05',
  'harness': 'c05',
  'cases': {'quick': 1500, 'thorough': 400000},
  'consts': [],
- 'rule': 'adaptive seeded event histories (5-60 events quick, 10-120 thorough) against the real TransportManager with a scripted '
-         'transport: dial requests by peer and by address, address additions, open/negotiate outcomes, inbound connections (ids drawn from '
-         'the shared counter), accept futures, closures, limit configurations from {none,0,1,2,3}; 85% follow the transport contract and '
-         'end with a settle phase (all owed answers delivered, every peer re-dialled), 15% add infeasible noise (unknown ids, failing '
-         'transport calls, failing accepts). 9% of the events are dial_address calls with arbitrary multiaddress shapes from the C10 '
-         "grammar (accepted shapes, missing /p2p, components after the peer id, wrong first/second component, ws/quic shapes, the node's "
-         'own listen address). After every event the transport calls, protocol notifications, manager events, return code and a dump of '
-         'peer states / pending / counted sets are compared with the extracted Coq model. Non-trivial: trace >= 8 numbers; distinct (case, '
+ 'rule': 'adaptive seeded event histories (5-60 events quick, 10-120 thorough) against the real TransportManager with TWO scripted '
+         'transports (TCP and WebSocket; 70% of the cases install both, the others TCP only or WebSocket only) and through the real '
+         'user-facing TransportManagerHandle: dial requests by peer (manager.dial, and handle.dial whose command travels over the real '
+         'command channel and is executed by next()), by address (manager.dial_address, handle.dial_address), address additions '
+         '(handle.add_known_address) of a tcp and/or a /ws address per peer, open outcomes per (connection id, transport) in every order '
+         '(fail/fail, fail/opened, opened first, inbound connection wins while both transports are owed), negotiate outcomes, inbound '
+         'connections (ids drawn from the shared counter), accept futures, closures, limit configurations from {none,0,1,2,3} incl. free '
+         "outbound capacity 1 with both kinds of addresses stored (the implementation's choice of transports is read from the Opening "
+         'state it created, written into the case and validated by the oracle: choice_ok); 85% follow the transport contract (mirrored per '
+         '(id, transport) by the generator) and end with a settle phase (all owed answers delivered, every peer re-dialled), 15% add '
+         'infeasible noise (unknown ids, failing open on either or both transports, failing dial/negotiate/accept). 9% of the events are '
+         'dial_address calls with arbitrary multiaddress shapes from the C10 grammar (accepted tcp and ws shapes, missing /p2p, components '
+         "after the peer id, wrong first/second component, quic shapes, the node's own listen address, a peer's canonical address). After "
+         'every event the calls each transport saw (tagged with the transport), protocol notifications, manager events (OpenFailure with '
+         'its error count), return code and a dump of peer states (Opening with its transport mask) / address book by kind / pending / '
+         'counted sets / opening_errors are compared with the extracted Coq model. Non-trivial: trace >= 8 numbers; distinct (case, '
          'trace) pairs are counted.',
  'level_text': 'Proof: the dial ledger is an inductive invariant (LInv) of the manager model over every event history the transport '
-               "contract allows and every limit configuration: every pending attempt is owed an answer by the transport and is its peer's "
-               'dial record, ids are fresh, terminal outputs close an attempt for good; consequences proved for all feasible histories: no '
-               'connection id is named by two terminal outputs, at quiescence every accepted attempt has a terminal output or was '
-               'superseded by a reported connection of the same peer or belongs to the recorded finding (limit-rejected outbound '
-               'connection), and no peer is wedged; plus per-handler theorems (re-dial attempted, failure consumes the attempt, limit '
-               'rejection clears the dial record, panics need contradictory ids). The same ledger is evaluated by the extracted oracle on '
-               "the implementation's own traces; the model is tied to manager/mod.rs step by step.",
- 'level_note': 'Trusted: Coq kernel, extraction, harness + ScriptedTransport hook. Transport contract `feas` (calls succeed, each is '
-               'answered once unless cancelled, cancel is effective, accept futures succeed) is an assumption validated for TCP by reading '
-               "tcp/mod.rs; one transport (TCP) only; the address book is abstracted to 'has an address' (scores are C10); `.await` on "
-               'full protocol channels inside the DialFailure fan-out is not modelled.',
- 'trusted_base': ['transport contract assumed for the feasible stream: open/dial/negotiate calls succeed, each is answered once unless '
-                  'cancelled, accept futures succeed (validated for TCP by reading tcp/mod.rs)',
+               'contract allows and every configuration (limits, installed transports), with dial attempts owed by SEVERAL transports in '
+               "parallel: every pending attempt is owed an answer and is its peer's dial record, the transports that still owe an open "
+               'answer for an id are exactly the transport set of the Opening state (non-empty, installed only), ids are fresh, terminal '
+               'outputs close an attempt for good, the address book holds installed kinds only (KInv, inductive over every history); '
+               'consequences proved for all feasible histories: no connection id is named by two terminal outputs, at quiescence every '
+               'accepted attempt has a terminal output or was superseded by a reported connection of the same peer or belongs to the '
+               'recorded finding (limit-rejected outbound connection), no peer is wedged, no panic site is reached; OpenFailure is '
+               'reported exactly by the failure of the last transport of the set (with the accumulated error count) and a non-last failure '
+               'is silent and keeps the attempt owed; ConnectionOpened cancels on every transport of the set, negotiates on the winner '
+               'only and ends the open phase; an inbound connection cancels on all transports and leaves nothing owed; the handle gate '
+               '(TransportManagerHandle::dial / dial_address) is sound and agrees with the manager on the same state, the only refusal of a '
+               'queued command being the connection limit (finding class 2); plus per-handler theorems (re-dial attempted on every '
+               'transport of any allowed choice, failure consumes the attempt, limit rejection clears the dial record, panics need '
+               'contradictory ids or an uninstalled transport in an Opening set, which the invariant excludes; '
+               'C05_uninstalled_transport_refuted shows what would happen otherwise). The same ledger is evaluated by the extracted oracle '
+               "on the implementation's own traces; the model is tied to manager/{mod,peer_state,limits,handle}.rs step by step.",
+ 'level_note': 'Trusted: Coq kernel, extraction, harness + ScriptedTransport hooks. Transport contract `feas` (calls succeed, each open is '
+               'answered once per transport unless cancelled on it, cancel is effective, accept futures succeed, events come from installed '
+               'transports) is an assumption validated for TCP by reading tcp/mod.rs; two of the three transports (TCP, WebSocket) are '
+               'installed, QUIC is compiled out of the harness build; the address book is abstracted to the set of stored addresses (which '
+               'of them AddressStore::addresses(limit) hands out is an input validated by choice_ok; scores are C10; fewer than 64 '
+               'addresses per peer so that no eviction happens); the handle call and the execution of its command happen in one step (the '
+               'asynchronous gap between them is not modelled: C05_handle_gate_agrees is about the same state); ChannelClogged is modelled '
+               'as a possible result (clog) but never driven; `.await` on full protocol channels inside the DialFailure fan-out is not '
+               'modelled.',
+ 'trusted_base': ['transport contract assumed for the feasible stream: open/dial/negotiate calls succeed, each is answered once (open: '
+                  'once per transport) unless cancelled, accept futures succeed (validated for TCP by reading tcp/mod.rs)',
                   'connection ids: inbound ids are drawn from the counter shared with the manager (AllocConn event / '
-                  'verif_alloc_connection_id hook)'],
- 'assumptions': ['single installed transport (default cargo features of the harness build)',
-                 'debug build: a reachable debug_assert!(false) shows up as a panic']}
+                  'verif_alloc_connection_id hook)',
+                  'the invariant "only installed kinds are stored" (KInv) is proved for add_known_address (supported_transport filter) '
+                  'and dial_address (shape + installed check); for addresses REPORTED by transports (DialFailure / OpenFailure / '
+                  'ConnectionOpened / ConnectionEstablished) it rests on the harness: a scripted transport only reports the canonical '
+                  'address of its own kind (a real transport reports the addresses it was handed by the manager)',
+                  'TransportManagerHandle: the ChannelClogged / TaskClosed results of try_send are not driven by the harness (the channel '
+                  'never fills: every command is executed in the step that queued it)'],
+ 'assumptions': ['two installed transports at most (TCP, WebSocket: cargo feature websocket on, quic off in the harness build)',
+                 'debug build: a reachable debug_assert!(false) shows up as a panic',
+                 'fewer than MAX_ADDRESSES (64) distinct addresses per peer (no eviction from the address store; at most 40 dial_address '
+                 'shapes per case)']}
